@@ -138,6 +138,19 @@ func init() {
 	implOps["htmlesc"] = escOp1(func(s string) []byte { return soyhtml.VerifHTMLEscape(s) })
 	implOps["gohtmlesc"] = escOp1(func(s string) []byte { return []byte(template.HTMLEscapeString(s)) })
 	implOps["jsesc"] = escOp1(func(s string) []byte { return []byte(template.JSEscapeString(s)) })
+	implOps["jsesc2"] = escOp1(func(s string) []byte { return []byte(soyhtml.VerifJSEscape(s)) })
+	// jsrt2: the proposed escaper followed by the oracle's independent evaluator
+	implOps["jsrt2"] = func(f []string) string {
+		s, ok := unhx(f[0])
+		if !ok || len(f) != 1 {
+			return "BADREQ"
+		}
+		dec, why := escJSDecode([]byte(soyhtml.VerifJSEscape(string(s))))
+		if why != "" {
+			return "ERR"
+		}
+		return "OK " + hx(dec)
+	}
 	implOps["queryesc"] = escOp1(func(s string) []byte { return []byte(url.QueryEscape(s)) })
 	implOps["jsonstr"] = escOp1(func(s string) []byte {
 		j, err := json.Marshal(data.String(s))
@@ -401,6 +414,8 @@ func genC16dir(g *G) {
 	for _, s := range base {
 		nt := len(s) > 0
 		g.Add(escCase("jsesc", s, nt))
+		g.Add(escCase("jsesc2", s, nt))
+		g.Add(escCase("jsrt2", s, nt))
 		g.Add(escCase("queryesc", s, nt))
 		g.Add(escCase("jsonstr", s, nt))
 		for _, d := range zero {
@@ -431,6 +446,8 @@ func genC16dir(g *G) {
 		switch g.R.Intn(9) {
 		case 0:
 			g.Add(escCase("jsesc", s, nt))
+			g.Add(escCase("jsesc2", s, nt))
+			g.Add(escCase("jsrt2", s, nt))
 		case 1:
 			g.Add(escCase("queryesc", s, nt))
 		case 2:
@@ -625,7 +642,8 @@ func escTruncateOracle(v, out []byte, n int, ellipsis bool) string {
 			return "result is not valid UTF-8 although the value is"
 		}
 	}
-	if len(p) < len(v) && !utf8.RuneStart(v[len(p)]) {
+	// the start of the text is always a boundary (text beginning with continuation bytes is cut to nothing)
+	if len(p) > 0 && len(p) < len(v) && !utf8.RuneStart(v[len(p)]) {
 		return "cut inside a character (next byte is a continuation byte)"
 	}
 	return ""
@@ -686,8 +704,30 @@ func escOracle(c *Case, impl string) *Viol {
 			return escViol("queryesc", "queryesc: output does not percent-decode to the value")
 		}
 	case "jsesc":
+		// text/template.JSEscape itself: soy no longer calls it (internal/jsescape since c70f1e4); the op stays as
+		// the tie of the baseline model that jsEscapeFixed is compared with, without a property oracle.
+		return nil
+	case "jsesc2":
+		// the proposed escaper: safe and evaluating to the value on EVERY valid string, equal to
+		// text/template.JSEscape wherever that one is right
 		v, _ := unhx(f[1])
-		return escJSOracle("jsesc", v, out, isOK)
+		if vi := escJSOracle("jsesc2", v, out, isOK); vi != nil {
+			return vi
+		}
+		if utf8.Valid(v) {
+			ref := []byte(template.JSEscapeString(string(v)))
+			if dec, why := escJSDecode(ref); why == "" && bytes.Equal(dec, v) && !bytes.Equal(ref, out) {
+				return escViol("jsesc2:differs", "jsesc2: differs from text/template.JSEscape on an input that one handles correctly")
+			}
+		}
+		if bytes.ContainsAny(out, "<>&=\n\r") {
+			return escViol("jsesc2:unsafe", "jsesc2: unsafe byte in the output")
+		}
+	case "jsrt2":
+		v, _ := unhx(f[1])
+		if utf8.Valid(v) && (!isOK || !bytes.Equal(out, v)) {
+			return escViol("jsrt2", "jsrt2: the proposed escaper's output does not evaluate to the value")
+		}
 	case "jsonstr":
 		v, _ := unhx(f[1])
 		return escJSONOracle("jsonstr", v, out, isOK)
@@ -757,11 +797,7 @@ func escOracle(c *Case, impl string) *Viol {
 				ell = args[1] == "true"
 			}
 			if !isOK {
-				k := "dir:truncate:panic"
-				if !utf8.Valid(v) {
-					k = "dir:truncate:panic:invalid-utf8"
-				}
-				return escViol(k, "truncate("+itoa(n)+") does not return a value (Go panic, surfaced by evalPrint as a render error): "+impl)
+				return escViol("dir:truncate:fail", "truncate("+itoa(n)+") does not return a value (a Go panic is surfaced by evalPrint as a render error): "+impl)
 			}
 			if why := escTruncateOracle(v, out, n, ell); why != "" {
 				return escViol("dir:truncate", "truncate: "+why)
